@@ -815,7 +815,11 @@ func (f *FeaturesByID) fillRelationsFromPoint(fb *featureBlock, id uint64, relat
 		for _, r := range p.Relations {
 			for _, rm := range f.features[b6.FeatureTypeRelation] {
 				if _, ns := r.TypeAndNamespace.Split(); ns == rm.Namespaces[b6.FeatureTypeRelation] {
-					relations = append(relations, f.newRelation(rm, r.Value))
+					// The relation may be missing, eg if it's recorded against a
+					// namespace that another merged index numbers differently.
+					if relation := f.newRelation(rm, r.Value); relation != nil {
+						relations = append(relations, relation)
+					}
 					break
 				}
 			}
@@ -832,7 +836,11 @@ func (f *FeaturesByID) fillRelationsFromPath(fb *featureBlock, id uint64, relati
 		for _, r := range p.Relations {
 			for _, rm := range f.features[b6.FeatureTypeRelation] {
 				if _, ns := r.TypeAndNamespace.Split(); ns == rm.Namespaces[b6.FeatureTypeRelation] {
-					relations = append(relations, f.newRelation(rm, r.Value))
+					// The relation may be missing, eg if it's recorded against a
+					// namespace that another merged index numbers differently.
+					if relation := f.newRelation(rm, r.Value); relation != nil {
+						relations = append(relations, relation)
+					}
 					break
 				}
 			}
@@ -849,7 +857,11 @@ func (f *FeaturesByID) fillRelationsFromArea(fb *featureBlock, id uint64, relati
 		for _, r := range a.Relations {
 			for _, rm := range f.features[b6.FeatureTypeRelation] {
 				if _, ns := r.TypeAndNamespace.Split(); ns == rm.Namespaces[b6.FeatureTypeRelation] {
-					relations = append(relations, f.newRelation(rm, r.Value))
+					// The relation may be missing, eg if it's recorded against a
+					// namespace that another merged index numbers differently.
+					if relation := f.newRelation(rm, r.Value); relation != nil {
+						relations = append(relations, relation)
+					}
 					break
 				}
 			}
@@ -866,7 +878,9 @@ func (f *FeaturesByID) fillRelationsFromRelation(fb *featureBlock, id uint64, re
 		for _, rr := range r.Relations {
 			for _, rm := range f.features[b6.FeatureTypeRelation] {
 				if _, ns := rr.TypeAndNamespace.Split(); ns == rm.Namespaces[b6.FeatureTypeRelation] {
-					relations = append(relations, f.newRelation(rm, rr.Value))
+					if relation := f.newRelation(rm, rr.Value); relation != nil {
+						relations = append(relations, relation)
+					}
 					break
 				}
 			}
